@@ -133,6 +133,31 @@ def run(ctx):
 
     chk = TxChecker(ctx)
     refused = 0
+    # transactions built through the API (relative lock times and replace-by-fee sequences included): what the object reports -
+    # version in both of its forms, lock time, inputs, outputs, id after sign_and_update() - is what an independent parser reads
+    # from its bytes
+    for trial in range(80 if T else 24):
+        t, d = txgen.build_api_tx(rng, nin=rng.randint(1, 3), max_n=3, public_only=False)
+        try:
+            v_bytes, v_int, v_dict = int.from_bytes(t.version, 'big'), t.version_int, t.as_dict()['version']
+            raw0 = t.raw()
+            t.sign()
+            t.sign_and_update()
+            raw1 = t.raw()
+        except Exception as e:
+            ctx.violation('building, signing and serialising a standard transaction through the API raised', {'op': 'api-built', 'error': repr(e)[:150]})
+            continue
+        ctx.evals += 1
+        ctx.count('api-built')
+        if not (v_bytes == v_int == v_dict == int.from_bytes(raw0[:4], 'little')):
+            ctx.violation('the version an API-built transaction reports differs from the version it serialises', {'op': 'api-built version', 'version_bytes': v_bytes, 'version_int': v_int,
+                          'as_dict': v_dict, 'serialised': int.from_bytes(raw0[:4], 'little'), 'sequences': [i_.sequence for i_ in t.inputs]})
+            continue
+        if raw1[:4] != raw0[:4]:
+            ctx.violation('sign_and_update() changed the serialised version of the transaction', {'op': 'api-built version', 'before': raw0[:4].hex(), 'after': raw1[:4].hex(),
+                          'sequences': [i_.sequence for i_ in t.inputs]})
+            continue
+        chk.add(raw1, dump_py(t, raw1), False, 'api-built')
     for kind, raw, std in raws:
         for strict in ((True, False) if std else (False,)):
             try:
